@@ -235,8 +235,12 @@ def wf_problems(p) -> list:
 def snapshot(x):
     if isinstance(x, numpoly.ndpoly):
         v = numpy.ndarray.view(x, numpy.ndarray) if False else x.values
+        try:
+            expo = tuple(map(tuple, numpy.asarray(x.exponents).tolist()))
+        except Exception as err:  # noqa: BLE001
+            expo = ("exponents-raise", type(err).__name__)
         return ("poly", x.shape, str(x.dtype), tuple(x.names), tuple(str(k) for k in numpy.asarray(x.keys).ravel()),
-                numpy.ascontiguousarray(v).tobytes())
+                expo, numpy.ascontiguousarray(v).tobytes())
     if isinstance(x, numpy.ndarray):
         return ("array", x.shape, str(x.dtype), numpy.ascontiguousarray(x).tobytes())
     if isinstance(x, (list, tuple)):
